@@ -141,7 +141,7 @@ Unary(nd, t, v) ==
          ELSE IF nd.f THEN R([nd EXCEPT !.f = FALSE], <<CallN(d, B(FALSE)), CallC(d)>>) ELSE none
     [] k = "status" ->            \* c = status cell node
          IF t = "N" THEN fwd
-         ELSE R(nd, <<Call(d, t, v), F2("setstatus", nd.c, IF t = "C" THEN 1 ELSE 2)>>)
+         ELSE R(nd, <<Call(d, t, v), F2("setstatus", nd.c, IF t = "C" THEN 1 ELSE 2)>>)    \* forward, then flag.store, then wake
     (* ports of zip / combine_latest: tag the item, forward to the shared cell *)
     [] k = "zipA" \/ k = "clA" -> IF t = "N" THEN R(nd, <<Call(d, "NA", v)>>) ELSE fwd
     [] k = "zipB" \/ k = "clB" -> IF t = "N" THEN R(nd, <<Call(d, "NB", v)>>) ELSE fwd
@@ -215,6 +215,6 @@ Fin(st, n) ==
          IF ~st.nodes[nd.c].f THEN 1 ELSE IF RHeld(slot) THEN 2 ELSE IF slot.f THEN 0 ELSE 1
     [] k = "subjobs" ->          \* Subject::is_finished = observers.rc_deref().is_none()
          LET on == st.nodes[st.subj[nd.c].o] IN IF RHeld(on) THEN 2 ELSE IF on.f THEN 0 ELSE 1
-    [] k = "chan" -> IF nd.g THEN 1 ELSE 0
+    [] k = "futobs" \/ k = "strobs" -> IF nd.g THEN 1 ELSE 0      \* sender.is_closed()
     [] OTHER -> Fin(st, nd.d)
 =============================================================================
